@@ -8,12 +8,27 @@
 -/
 import MantraDex.Model.System
 import MantraDex.Proofs.NumLemmas
+import MantraDex.Proofs.SwapLemmas
 import MantraDex.Properties.C04
 
 set_option linter.unusedSimpArgs false
 
 namespace MantraDex.C12
 open MantraDex
+
+/-- everything `perform_swap` does that the statements below need, read off its definition -/
+theorem performSwap_inv {s s' : PmState} {offer : Coin} {ask : Denom} {pid : String}
+    {b ms : Option Nat} {r : SwapResult} (h : performSwap s offer ask pid b ms = .ok (s', r)) :
+    ∃ pool c, s.getPool pid = .ok pool ∧ computeSwap pool offer ask = .ok c ∧
+      s' = s.savePool r.pool ∧ r.pool.id = pool.id ∧
+      r.ret = ⟨ask, c.ret⟩ ∧ r.burnFee = ⟨ask, c.burnFee⟩ ∧ r.protocolFee = ⟨ask, c.protocolFee⟩ ∧
+      r.swapFee = ⟨ask, c.swapFee⟩ ∧ r.extraFees = ⟨ask, c.extraFees⟩ ∧ r.slippage = c.slippage := by
+  unfold performSwap at h
+  simp only [bind_ok, pure_ok] at h
+  obtain ⟨pool, hp, _, _, c, hc, _, _, _, _, _, _, _, _, _, _, _, _, _, _, hr⟩ := h
+  simp only [Prod.mk.injEq] at hr
+  obtain ⟨rfl, rfl⟩ := hr
+  exact ⟨pool, c, hp, hc, rfl, rfl, rfl, rfl, rfl, rfl, rfl, rfl⟩
 
 /-- `Simulation` returns exactly the amounts the following `Swap` produces (all five amounts), in
     any state, for both pool types -/
@@ -22,14 +37,71 @@ theorem simulation_eq_swap {s s' : PmState} {offer : Coin} {ask : Denom} {pid : 
     ∃ c, querySimulation s offer ask pid = .ok c ∧
       r.ret.amount = c.ret ∧ r.swapFee.amount = c.swapFee ∧ r.protocolFee.amount = c.protocolFee ∧
       r.burnFee.amount = c.burnFee ∧ r.extraFees.amount = c.extraFees ∧ r.slippage = c.slippage := by
-  sorry
+  obtain ⟨pool, c, hp, hc, -, -, h1, h2, h3, h4, h5, h6⟩ := performSwap_inv h
+  refine ⟨c, ?_, ?_⟩
+  · unfold querySimulation
+    simp only [bind_ok]
+    exact ⟨pool, hp, hc⟩
+  · rw [h1, h2, h3, h4, h5, h6]
+    exact ⟨rfl, rfl, rfl, rfl, rfl, rfl⟩
+
+theorem getPool_id {s : PmState} {pid : String} {pool : PoolInfo} (h : s.getPool pid = .ok pool) :
+    pool.id = pid := by
+  unfold PmState.getPool at h
+  split at h
+  next p hf =>
+    cases h
+    have := List.find?_some hf
+    exact eq_of_beq this
+  next => cases h
+
+theorem find_map_ne (p : PoolInfo) (qid : String) (hne : qid ≠ p.id) (l : List PoolInfo) :
+    (l.map fun q => if q.id == p.id then p else q).find? (·.id == qid) = l.find? (·.id == qid) := by
+  induction l with
+  | nil => rfl
+  | cons x xs ih =>
+    simp only [List.map_cons, List.find?_cons]
+    by_cases hx : x.id = p.id
+    · have h1 : (p.id == qid) = false := by simpa using fun h => hne h.symm
+      have h2 : (x.id == qid) = false := by rw [hx]; exact h1
+      simp only [hx, beq_self_eq_true, if_true, h1, h2]
+      exact ih
+    · have h0 : (x.id == p.id) = false := by simpa using hx
+      simp only [h0, Bool.false_eq_true, if_false]
+      rw [ih]
+
+theorem find_insert_ne (p : PoolInfo) (qid : String) (hne : qid ≠ p.id) (l : List PoolInfo) :
+    (insertPoolSorted p l).find? (·.id == qid) = l.find? (·.id == qid) := by
+  have h1 : (p.id == qid) = false := by simpa using fun h => hne h.symm
+  induction l with
+  | nil => simp [insertPoolSorted, h1]
+  | cons x xs ih =>
+    unfold insertPoolSorted
+    split
+    · simp only [List.find?_cons, h1]
+    · simp only [List.find?_cons, ih]
+
+theorem getPool_savePool_ne (s : PmState) (p : PoolInfo) (qid : String) (hne : qid ≠ p.id) :
+    (s.savePool p).getPool qid = s.getPool qid := by
+  have hf : (s.savePool p).pools.find? (·.id == qid) = s.pools.find? (·.id == qid) := by
+    unfold PmState.savePool
+    split
+    · exact find_map_ne p qid hne _
+    · exact find_insert_ne p qid hne _
+  unfold PmState.getPool
+  rw [hf]
+
 
 /-- a swap on one pool leaves every other pool exactly as it was (frame lemma) -/
 theorem performSwap_frame {s s' : PmState} {offer : Coin} {ask : Denom} {pid qid : String}
     {b ms : Option Nat} {r : SwapResult} (hne : qid ≠ pid)
     (h : performSwap s offer ask pid b ms = .ok (s', r)) :
     s'.getPool qid = s.getPool qid := by
-  sorry
+  obtain ⟨pool, c, hp, -, rfl, hid, -⟩ := performSwap_inv h
+  apply getPool_savePool_ne
+  rw [hid, getPool_id hp]
+  exact hne
+
 
 /-- the route, as executed: pairwise distinct pool identifiers -/
 def distinctPools (ops : List SwapOp) : Prop := (ops.map (·.poolId)).Nodup
@@ -41,6 +113,11 @@ def simChain (s : PmState) : List SwapOp → Nat → R Nat
     let r ← querySimulation s ⟨op.tokenIn, amt⟩ op.tokenOut op.poolId
     simChain s ops r.ret
 
+theorem querySimulation_congr {s s0 : PmState} {offer : Coin} {ask : Denom} {pid : String}
+    (h : s.getPool pid = s0.getPool pid) :
+    querySimulation s offer ask pid = querySimulation s0 offer ask pid := by
+  unfold querySimulation; rw [h]
+
 /-- executing a route over pairwise distinct pools (consecutive denoms) yields exactly the final
     amount that chaining the simulations on the *initial* state yields -/
 theorem route_eq_simulation {s0 : PmState} {ms : Option Nat} :
@@ -51,7 +128,114 @@ theorem route_eq_simulation {s0 : PmState} {ms : Option Nat} :
       (∀ i, ∀ h : i + 1 < ops.length, (ops[i]'(by omega)).tokenOut = (ops[i + 1]'h).tokenIn) →
       routeHops s ms ops prev fees = .ok (s', out, fees') →
       simChain s0 ops prev.amount = .ok out.amount := by
-  sorry
+  intro ops
+  induction ops with
+  | nil =>
+    intro s s' prev out fees fees' _ _ _ _ h
+    unfold routeHops at h
+    cases h
+    rfl
+  | cons op ops ih =>
+    intro s s' prev out fees fees' hd hs hin hcons h
+    unfold routeHops at h
+    simp only [bind_ok] at h
+    obtain ⟨pool, _, h⟩ := h
+    split at h
+    · simp [bind, Except.bind] at h
+    simp only [bind_ok] at h
+    obtain ⟨⟨s1, r⟩, hps, hrest⟩ := h
+    obtain ⟨pool', c, hp, hc, -, -, hret, -⟩ := performSwap_inv hps
+    unfold distinctPools at hd
+    simp only [List.map_cons, List.nodup_cons] at hd
+    obtain ⟨hnotin, hd'⟩ := hd
+    have hprev : (⟨op.tokenIn, prev.amount⟩ : Coin) = prev := by
+      cases prev; simp only at hin ⊢; rw [hin]
+    have hsim : querySimulation s0 ⟨op.tokenIn, prev.amount⟩ op.tokenOut op.poolId = .ok c := by
+      rw [hprev, ← querySimulation_congr (hs op (List.mem_cons_self ..))]
+      unfold querySimulation
+      simp only [bind_ok]
+      exact ⟨pool', hp, hc⟩
+    have hstep : simChain s0 (op :: ops) prev.amount = simChain s0 ops r.ret.amount := by
+      rw [simChain]
+      simp only [hsim, hret]
+      rfl
+    rw [hstep]
+    refine ih s1 s' r.ret out _ fees' hd' ?_ ?_ ?_ hrest
+    · intro op' hop'
+      have hne : op'.poolId ≠ op.poolId := by
+        intro heq
+        exact hnotin (heq ▸ List.mem_map_of_mem hop')
+      rw [performSwap_frame hne hps]
+      exact hs op' (List.mem_cons_of_mem _ hop')
+    · cases ops with
+      | nil => trivial
+      | cons op2 ops2 =>
+        simp only [hret]
+        have := hcons 0 (by simp)
+        simpa using this.symm
+    · intro i hi
+      have := hcons (i + 1) (by simp only [List.length_cons]; omega)
+      simpa using this
+
+theorem offerAmount_zero_fee {X Y ask : Nat} {q : OfferAmountComputation}
+    (hq : computeOfferAmount X Y ask ⟨0, 0, 0, []⟩ = .ok q) :
+    ask + 1 ≤ Y ∧ Y - ask - 1 ≠ 0 ∧ X ≤ X * Y / (Y - ask - 1) ∧ q.offer = X * Y / (Y - ask - 1) - X := by
+  unfold computeOfferAmount at hq
+  simp only [List.cons_append, List.nil_append, List.foldlM_cons, List.foldlM_nil, bind_ok, pure_ok, ckAdd_ok, orPanic_ok, ckSub_ok, decDiv_ok, fit_ok, decMul_ok, mulRatio_ok, decFloor] at hq
+  obtain ⟨fees, ⟨a1, ⟨_, rfl⟩, a2, ⟨_, rfl⟩, rfl⟩, oneMinus, ⟨_, rfl⟩, inv, ⟨_, _, rfl⟩, cp, ⟨_, rfl⟩,
+    a18, ⟨_, rfl⟩, bc, ⟨_, rfl⟩, den, ⟨hle, rfl⟩, den2, ⟨h1, rfl⟩, qq, ⟨hne, _, rfl⟩, off, ⟨hXle, rfl⟩,
+    o18, _, rate, _, bs, _, sf, _, pf, _, bf, _, ef, _, rest⟩ := hq
+  have hbc : ask * ONE18 * (ONE18 * ONE18 / (ONE18 - (0 + 0 + 0))) / ONE18 / ONE18 = ask := by
+    have hk := ONE18_pos
+    generalize ONE18 = k at hk ⊢
+    simp only [Nat.add_zero]
+    rw [Nat.sub_zero, Nat.mul_div_cancel _ hk, Nat.mul_div_cancel _ hk,
+      Nat.mul_div_cancel _ hk]
+  rw [hbc] at hle h1 hne hXle rest
+  obtain ⟨a, ⟨_, rfl⟩, _, _, _, _, _, _, _, _, _, _, rfl⟩ := rest
+  rw [Nat.one_mul] at hXle
+  refine ⟨by omega, hne, hXle, ?_⟩
+  simp only [Nat.one_mul]
+
+
+theorem feeCompute_zero {g f : Nat} (h : feeCompute 0 g = .ok f) : f = 0 := by
+  unfold feeCompute at h
+  simp only [bind_ok, pure_ok, fit_ok, decMul_ok, decFloor, Nat.mul_zero, Nat.zero_div] at h
+  obtain ⟨_, _, _, ⟨_, rfl⟩, rfl⟩ := h
+  rfl
+
+theorem swapCP_zero_fee {p : PoolInfo} {X Y o : Nat} {c : SwapComputation}
+    (hfee : p.fees = ⟨0, 0, 0, []⟩) (h : computeSwapCP p X Y o = .ok c) :
+    c.ret = Y * o / (X + o) := by
+  obtain ⟨_, slip, fc, hfc, hc⟩ := computeSwapCP_inv h
+  generalize Y * o / (X + o) = g at hfc hc
+  rw [hfee] at hfc
+  unfold computeFees at hfc
+  simp only [bind_ok, pure_ok, List.foldlM_nil] at hfc
+  obtain ⟨s, hs, pf, hpf, b, hb, e, rfl, rfl⟩ := hfc
+  cases feeCompute_zero hs
+  cases feeCompute_zero hpf
+  cases feeCompute_zero hb
+  unfold getSwapComputation at hc
+  simp only [bind_ok, pure_ok, ckSub_ok, ckAdd_ok, fit_ok, Nat.sub_zero] at hc
+  obtain ⟨_, ⟨_, rfl⟩, _, ⟨_, rfl⟩, _, ⟨_, rfl⟩, _, ⟨_, rfl⟩, _, _, _, _, _, _, _, _, _, ⟨_, rfl⟩, _, _,
+    _, _, _, _, _, _, _, _, rfl⟩ := hc
+  rfl
+
+theorem reverse_arith {X Y ask : Nat} (h1 : ask + 1 ≤ Y) (hD : Y - ask - 1 ≠ 0)
+    (hX : X ≤ X * Y / (Y - ask - 1)) :
+    ask ≤ Y * (X * Y / (Y - ask - 1) - X + 1) / (X + (X * Y / (Y - ask - 1) - X + 1)) := by
+  obtain ⟨D, hDdef⟩ : ∃ D, D = Y - ask - 1 := ⟨_, rfl⟩
+  rw [← hDdef] at hD hX ⊢
+  have hlt : X * Y < D * (X * Y / D + 1) := Nat.lt_mul_div_succ _ (Nat.pos_of_ne_zero hD)
+  generalize X * Y / D = Q at hX hlt ⊢
+  have hY : Y = ask + 1 + D := by omega
+  subst hY
+  have e1 : X + (Q - X + 1) = Q + 1 := by omega
+  have e2 : Q - X + 1 = (Q + 1) - X := by omega
+  rw [e1, e2, Nat.le_div_iff_mul_le (by omega : 0 < Q + 1), Nat.mul_sub, Nat.add_mul, Nat.add_mul,
+    Nat.one_mul, Nat.mul_comm (ask + 1 + D) X]
+  omega
 
 /-- reverse quote on constant-product pools, zero fees: offering one unit more than quoted always
     yields at least the requested amount (the general statement is false for large asks: F-09) -/
@@ -61,13 +245,25 @@ theorem reverse_quote_plus_one_suffices_partial {p : PoolInfo} {X Y ask : Nat}
     (hq : computeOfferAmount X Y ask p.fees = .ok q)
     (hs : computeSwapCP p X Y (q.offer + 1) = .ok c) :
     ask ≤ c.ret := by
-  sorry
+  rw [hfee] at hq
+  obtain ⟨h1, hD, hX, hoff⟩ := offerAmount_zero_fee hq
+  rw [swapCP_zero_fee hfee hs, hoff]
+  exact reverse_arith h1 hD hX
 
 /-- F-09 witness: pool 10^24/10^24, fees 0.3 % + 0.1 %, ask 10^21: quote + 1 falls short -/
 theorem reverse_quote_witness :
     ∃ q c, computeOfferAmount (10^24) (10^24) (10^21) ⟨1000000000000000, 3000000000000000, 0, []⟩ = .ok q ∧
       computeSwapCP { (default : PoolInfo) with fees := ⟨1000000000000000, 3000000000000000, 0, []⟩ }
         (10^24) (10^24) (q.offer + 1) = .ok c ∧ c.ret < 10^21 := by
-  sorry
+  exact ⟨⟨1005025125628140703067, 1009061371112591067, 3012048192771084336, 1004016064257028112, 0, 0⟩,
+   ⟨999999999999999999553, 5025125628140703515, 3012048192771084336, 1004016064257028112, 0, 0⟩,
+   by decide⟩
+
+/-! Non-vacuity of the zero-fee reverse quote: a concrete accepted quote and swap -/
+example : ∃ q c, computeOfferAmount 1000000 1000000 1000 ⟨0, 0, 0, []⟩ = .ok q ∧
+    computeSwapCP { (default : PoolInfo) with fees := ⟨0, 0, 0, []⟩ } 1000000 1000000 (q.offer + 1) = .ok c ∧
+    1000 ≤ c.ret := by
+  refine ⟨_, _, rfl, rfl, ?_⟩
+  decide
 
 end MantraDex.C12
